@@ -191,6 +191,10 @@ StepPub(s, e) ==
                  "C19", "StartOnShared", e.exec, e.key)
          \o ChkX(~(isev /\ byengine /\ e.state # "") \/ (~e.shared /\ e.key = s.evprefix \o "-" \o e.conn),
                  "C19", "Affinity:published-to-another-queue", e.exec, e.key)
+         (* C19: a child launched synchronously (its parent's pending request lives in this instance) starts on this
+            instance's own queue; a fire-and-forget child may be taken by any instance *)
+         \o ChkX(~(isev /\ byengine /\ e.state = "" /\ e.childkind = "sync") \/ (~e.shared /\ e.key = s.evprefix \o "-" \o e.conn),
+                 "C19", "Affinity:synchronous-child-launched-on-another-queue", e.exec, e.key)
          \o ChkX(~(e.kind = "rpc" /\ byengine) \/ (e.corr # "" /\ e.replyto = s.replyprefix \o "-" \o e.conn /\ e.key = e.fn),
                  "C19", "RpcAddressing", x, [replyto |-> e.replyto, corr |-> e.corr])
          \o ChkX(~(isev /\ byengine /\ e.exec # "" /\ e.exec \in s.fr.ackedX), "C03", "TriggerAckLast:pub", e.exec,
